@@ -219,6 +219,11 @@ def gen_history(r: random.Random, profile: str = "mix") -> Dict[str, Any]:
         scn["logger"] = False  # a run without any logger: nothing keeps the log objects alive
     if r.random() < 0.12:
         scn["settle"] = "batched"  # fills of several rounds and markets settled with one call
+    if r.random() < 0.1:
+        scn["extra_agent"] = r.choice([n_agents + 3, 1000, 7])  # one more agent under an id that is not its rank
+        for op in ops:
+            if "a" in op and r.random() < 0.3:
+                op["a"] = n_agents  # the hand-registered agent is the last one in the list
     return scn
 
 
